@@ -79,6 +79,9 @@ type vHist struct {
 	// set by monitors when this history exercised the property non-trivially
 	nontrivial bool
 	stopped    bool
+	// invariant violations already reported for an object in this history
+	// (a broken state persists; it is reported where it first appears)
+	onceSeen map[string]bool
 	// MaxSteps bounds do() calls (safety)
 	MaxSteps int
 }
@@ -208,6 +211,21 @@ func (h *vHist) Violation(rule, trigger, detail string) {
 		key += "/" + trigger
 	}
 	h.res.AddViolation(rule, key, fmt.Sprintf("[%s step %d height %d] %s", h.Origin, h.n, h.c.height, detail), h.Case())
+}
+
+// ViolationOnce reports a state-invariant violation for an object only the
+// first time it is observed in this history, so the trigger names the
+// transaction that introduced it.
+func (h *vHist) ViolationOnce(obj, rule, trigger, detail string) {
+	if h.onceSeen == nil {
+		h.onceSeen = map[string]bool{}
+	}
+	k := rule + "|" + obj
+	if h.onceSeen[k] {
+		return
+	}
+	h.onceSeen[k] = true
+	h.Violation(rule, trigger, detail)
 }
 
 func (h *vHist) Finish() {
